@@ -9,7 +9,7 @@ register("C10", ["c10", "c10g", "hazards", "pins"],
          ["panics inside external crates are limited to their documented '# Panics' sections", "stack exhaustion and allocation failure are out of scope", "reviewed table entries are correct"],
          TRUSTED)
 
-register("C03", ["c03", "phase_gate", "hazards", "pins"],
+register("C03", ["c03", "c03x", "phase_gate", "hazards", "pins"],
          "Static dominance analysis over MIR-as-built (before the coroutine transform, so `backup().await?; send()` is a straight path). Decides on ALL paths - hence for every crash point - that each send/sign of a ReplicaCommit/ReplicaTimeout/ReplicaNewView in bft is dominated by the success of the awaited durable write (backup_state -> EngineManager::set_state -> dyn EngineInterface::set_state), that nothing in the persisted set changes between the write and the send, that the vote recorded before the backup is the vote signed, that backup and restore agree field by field, and the phase gate/view monotonicity tables. Does not execute the code; durability of the execution layer's set_state is trusted.",
          ["EngineInterface::set_state is durable and atomic (trusted interface)", "&mut self exclusivity of the replica state machine (Rust borrow rules)"],
          TRUSTED)
